@@ -115,21 +115,23 @@ class Result:
                                          detail="construct outside the analysed subset was needed by this rule (fail closed)"))
 
 
-def arithmetic(res, I, entry=None, upto=None):
+def arithmetic(res, I, entry=None, upto=None, all_kinds=False):
     """A rule reasons about the mathematical value of the integer expressions it interprets.  Where the code may overflow
     (it then panics in a debug build and wraps in a release build) that value is not the one computed, so an undischarged
     overflow / division obligation met while interpreting an entry point on a fully general input is reported under the
     rule's own property as well."""
     seen = set()
     for o in (I.obligations if upto is None else I.obligations[:upto]):
-        if o.ok or not (o.kind.startswith("overflow") or o.kind == "div-zero"):
+        if o.ok or not (all_kinds or o.kind.startswith("overflow") or o.kind == "div-zero"):
             continue
         k = (o.kind, o.fn, str(o.goal))
         if k in seen:
             continue
         seen.add(k)
-        res.ob(False, o.kind, o.fn, o.goal, o.span, detail="arithmetic may overflow here (debug build: panic, release build: wrap-around), "
-               "so the value this rule reasons about is not the one the program computes", pc=o.pc, entry=entry or o.entry)
+        arith = o.kind.startswith("overflow") or o.kind == "div-zero"
+        res.ob(False, o.kind, o.fn, o.goal, o.span, detail=("arithmetic may overflow here (debug build: panic, release build: wrap-around), "
+               "so the value this rule reasons about is not the one the program computes") if arith else
+               "this operation may panic on a value the parser accepted, so the accessor does not return the field the rule compares", pc=o.pc, entry=entry or o.entry)
 
 
 def new_violations(res):
